@@ -563,7 +563,11 @@ func (vc *VC) frameObligations(kindPfx string, entry, exit *State, guard Term, m
 			var cover []Term
 			for _, m := range mods {
 				if m.key == k {
-					cover = append(cover, And(m.condOrTrue(), Eq(o, m.obj)))
+					if m.all {
+						cover = append(cover, m.condOrTrue()) // kindof(map): every map of that type
+					} else {
+						cover = append(cover, And(m.condOrTrue(), Eq(o, m.obj)))
+					}
 				}
 			}
 			cond = Implies(And(pre, Not(Or(cover...))), Eq(Select(h1, o), Select(h0, o)))
